@@ -2,6 +2,10 @@ import OmplModel.Proofs.PathOpsRemove
 import OmplModel.Proofs.PathOpsRope
 import OmplModel.Proofs.PathOpsRopeLen
 import OmplModel.Proofs.PathOpsDensify
+import OmplModel.Proofs.PathOpsSpliceLen
+import OmplModel.Proofs.PathOpsRepair
+import OmplModel.Proofs.PathHybrid
+import OmplModel.Proofs.PathOpsSplice2
 /-!
 # C17 — path post-processing preserves endpoints, validity and never worsens cost
 
@@ -223,6 +227,196 @@ theorem pshort_splice_spec (st : List σ) (pos0 pos1 : Nat) (idx0 idx1 : Bool) (
 
 example : psSplice [0, 10, 20, 30, 40] 0 false 5 2 false 25 = some [0, 5, 25, 30, 40] := by decide
 example : psSkip 0 false 2 false = false := by decide
+
+/-! ### partialShortcutPath never lengthens the path (over the splice model)
+
+Metric-like setting: an unsnapped sample lies on its segment, i.e. the cut is additive
+(`dist p s + dist s n = dist p n`: geodesic interpolation).  The sampling loop itself runs at `Float`
+(no order laws), so the claim is about every sequence of splices (`PsSteps`), which is what the loop
+performs (lock-step correspondence). -/
+
+/-- one splice, by the triangle inequality: the validated chord is no longer than the sub-path it replaces -/
+theorem pshort_splice_never_longer {α : Type} [AddCommMonoid α] [PartialOrder α] [IsOrderedAddMonoid α]
+    (dist : σ → σ → α) (tri : ∀ a b c, dist a c ≤ dist a b + dist b c)
+    (st : List σ) (pos0 pos1 : Nat) (idx0 idx1 : Bool) (s0 s1 : σ)
+    (h01 : pos0 < pos1) (h1 : pos1 + 1 < st.length) (hs : psSkip pos0 idx0 pos1 idx1 = false)
+    (hc0 : idx0 = false → dist (st[pos0]'(by omega)) s0 + dist s0 (st[pos0 + 1]'(by omega)) =
+      dist (st[pos0]'(by omega)) (st[pos0 + 1]'(by omega)))
+    (hc1 : idx1 = false → dist (st[pos1]'(by omega)) s1 + dist s1 (st[pos1 + 1]'h1) =
+      dist (st[pos1]'(by omega)) (st[pos1 + 1]'h1))
+    {out : List σ} (h : psSplice st pos0 idx0 s0 pos1 idx1 s1 = some out) :
+    pathLen dist out ≤ pathLen dist st :=
+  psSplice_pathLen_le dist tri st pos0 pos1 idx0 idx1 s0 s1 h01 h1 hs hc0 hc1 h
+
+/-- one splice, by the routine's OWN explicit cost comparison instead of the triangle inequality:
+`psAlongList` is exactly the list whose length the C++ accumulates in `alongPath` (it omits the motion
+`states[pos0] → states[pos0+1]` when the first sample was snapped — a conservative quirk: some
+genuine shortcuts are rejected, none lengthens the path; this is where `0 ≤ dist` is needed) -/
+theorem pshort_splice_never_longer_of_own_cost_test {α : Type} [AddCommMonoid α] [PartialOrder α] [IsOrderedAddMonoid α]
+    (dist : σ → σ → α) (hnn : ∀ a b, 0 ≤ dist a b)
+    (st : List σ) (pos0 pos1 : Nat) (idx0 idx1 : Bool) (s0 s1 : σ)
+    (h01 : pos0 < pos1) (h1 : pos1 + 1 < st.length) (hs : psSkip pos0 idx0 pos1 idx1 = false)
+    (hc0 : idx0 = false → dist (st[pos0]'(by omega)) s0 + dist s0 (st[pos0 + 1]'(by omega)) =
+      dist (st[pos0]'(by omega)) (st[pos0 + 1]'(by omega)))
+    (hc1 : idx1 = false → dist (st[pos1]'(by omega)) s1 + dist s1 (st[pos1 + 1]'h1) =
+      dist (st[pos1]'(by omega)) (st[pos1 + 1]'h1))
+    (hcost : dist (if idx0 then st[pos0]'(by omega) else s0) (if idx1 then st[pos1]'(by omega) else s1) ≤
+      pathLen dist (psAlongList st pos0 idx0 s0 pos1 idx1 s1))
+    {out : List σ} (h : psSplice st pos0 idx0 s0 pos1 idx1 s1 = some out) :
+    pathLen dist out ≤ pathLen dist st :=
+  psSplice_pathLen_le_of_along dist hnn st pos0 pos1 idx0 idx1 s0 s1 h01 h1 hs hc0 hc1 hcost h
+
+/-- every sequence of splices: never longer, first and last state kept -/
+theorem pshort_never_longer {α : Type} [AddCommMonoid α] [PartialOrder α] [IsOrderedAddMonoid α]
+    {dist : σ → σ → α} (tri : ∀ a b c, dist a c ≤ dist a b + dist b c) {st out : List σ}
+    (h : PsSteps dist st out) :
+    pathLen dist out ≤ pathLen dist st ∧ out.head? = st.head? ∧ out.getLast? = st.getLast? :=
+  ⟨h.pathLen_le tri, h.head?, h.getLast?⟩
+
+/-- non-vacuity: points on a line, both samples interior (5 in segment 0–10, 25 in segment 20–30) -/
+example : PsSteps (fun a b : Nat => (a - b) + (b - a)) [0, 10, 20, 30, 40] [0, 5, 25, 30, 40] :=
+  .step (.refl _) (.mk [0, 10, 20, 30, 40] 0 2 false false 5 25 [0, 5, 25, 30, 40] (by decide) (by decide) (by decide)
+    (by decide) (by decide) (by decide))
+
+/-! ## the splices of findBetterGoal and perturbPath (Model/PathOpsSplice2.lean)
+
+Index selection, cost test and `checkMotion` are inputs; the side conditions are the ones the C++
+establishes before the splice (where from: header of Proofs/PathOpsSplice2.lean). -/
+
+/-- findBetterGoal: the splice succeeds (no index error), keeps the first state, ends in the sampled
+goal state, and every motion of the result is an input motion, the prefix `(states[startIndex], state)`
+of an input motion cut at `state`, or the validated pair `(state, goal)`.  `hcase`: the sampled point
+was snapped to the vertex `startIndex` (then `state` IS that vertex) or lies inside segment
+`(startIndex, startIndex+1)`; `hs` (not the last vertex) comes from the routine's cost test. -/
+theorem bg_splice_spec (st : List σ) (s e : Nat) (state goal : σ) (hs : s + 1 < st.length)
+    (hcase : (e = s ∧ st[s]'(by omega) = state) ∨ e = s + 1) :
+    ∃ out, bgSplice st s e state goal = some out ∧ out.head? = st.head? ∧
+      out.getLast? = some goal ∧ out.length = e + 2 ∧
+      ∀ p ∈ adj out, p ∈ adj st ∨ (e = s + 1 ∧ p = (st[s]'(by omega), state)) ∨ p = (state, goal) :=
+  bgSplice_spec st s e state goal hs hcase
+
+/-- latent dependency (not reachable with the shipped objectives): snapped to the LAST vertex the
+block would write `states[size]`; only the cost test `isCostBetterThan(combine(costs.back(), x),
+costs.back())` being false keeps the code away from it -/
+theorem bg_splice_snap_to_last_vertex_out_of_range : bgSplice [0, 1, 2] 2 2 2 9 = none := bgSplice_snap_last_none
+
+/-- perturbPath, all nine cases in one canonical form -/
+theorem pp_splice_canonical (st : List σ) (posB posA : Nat) (idxB idxA : Bool) (before new after : σ)
+    (hBA : posB ≤ posA) (hA : posA + (if idxA then 0 else 1) < st.length)
+    (hlt : idxA = true → posB < posA) :
+    ppSplice st posB idxB posA idxA before new after =
+      some (st.take (posB + 1) ++
+        ((if idxB then [] else [before]) ++ [new] ++ (if idxA then [] else [after])) ++
+        st.drop (posA + (if idxA then 0 else 1))) :=
+  ppSplice_canon st posB posA idxB idxA before new after hBA hA hlt
+
+/-- perturbPath: the splice succeeds, keeps first and last state, and every motion of the result is an
+input motion, one of the two validated pairs `(before', new)`, `(new, after')`, the prefix
+`(states[posB], before)` of an input motion cut at `before`, or the suffix `(after, states[posA+1])` -/
+theorem pp_splice_spec (st : List σ) (posB posA : Nat) (idxB idxA : Bool) (before new after : σ)
+    (hBA : posB ≤ posA) (hA : posA + (if idxA then 0 else 1) < st.length)
+    (hlt : idxA = true → posB < posA) :
+    ∃ out, ppSplice st posB idxB posA idxA before new after = some out ∧
+      out.head? = st.head? ∧ out.getLast? = st.getLast? ∧
+      out.length + (posA + (if idxA then 0 else 1)) =
+        st.length + (posB + 1) + ((if idxB then 0 else 1) + 1 + (if idxA then 0 else 1)) ∧
+      ∀ p ∈ adj out, p ∈ adj st ∨
+        p = (if idxB then st[posB]'(by split at hA <;> omega) else before, new) ∨
+        p = (new, if idxA then st[posA]'(by split at hA <;> omega) else after) ∨
+        (idxB = false ∧ p = (st[posB]'(by split at hA <;> omega), before)) ∨
+        (idxA = false ∧ ∃ h : posA + 1 < st.length, p = (after, st[posA + 1]'h)) :=
+  ppSplice_spec st posB posA idxB idxA before new after hBA hA hlt
+
+/-- why `hlt` is needed: with `after` snapped to vertex `pos_before` the `else` branch (l. 661) would
+keep the unvalidated motion `(new, states[1])`; unreachable because `selectAlongPath` is monotone -/
+theorem pp_splice_needs_posB_lt_posA :
+    ppSplice [0, 1, 2] 0 false 0 true 10 11 0 = some [0, 10, 11, 1, 2] := ppSplice_ft_needs_lt
+
+example : bgSplice [0, 10, 20, 30] 1 2 15 99 = some [0, 10, 15, 99] := by decide
+example : ppSplice [0, 10, 20, 30] 0 false 2 false 5 17 25 = some [0, 5, 17, 25, 30] := by decide
+
+/-! ## checkAndRepair with a scripted valid-sampler (Model/PathOpsRepair.lean) -/
+
+theorem repair_indices_in_range (E : RepairEnv σ) (path : List σ) : (checkAndRepair E path).isSome = true :=
+  checkAndRepair_isSome E path
+
+/-- same number of states, first and last state kept -/
+theorem repair_shape {E : RepairEnv σ} {path out : List σ} {orig res : Bool}
+    (h : checkAndRepair E path = some (out, orig, res)) :
+    out.length = path.length ∧ out.head? = path.head? ∧ out.getLast? = path.getLast? := checkAndRepair_shape h
+
+/-- every state of the result is the input state at that index or a raw sample -/
+theorem repair_only_samples {E : RepairEnv σ} {path out : List σ} {orig res : Bool}
+    (h : checkAndRepair E path = some (out, orig, res)) :
+    ∀ i (hi : i < out.length), out[i]? = path[i]? ∨ ∃ k, out[i] = E.samp k := checkAndRepair_states h
+
+/-- **success means validated**: every motion of the result was answered true by `checkMotion` … -/
+theorem repair_true_only_validated_motions {E : RepairEnv σ} {path out : List σ} {orig : Bool}
+    (h : checkAndRepair E path = some (out, orig, true)) : (adj out).all (fun p => E.cm p.1 p.2) = true :=
+  checkAndRepair_true_motions h
+
+/-- … and every state it introduced was answered valid by `isValid` -/
+theorem repair_true_only_valid_states {E : RepairEnv σ} {path out : List σ} {orig : Bool}
+    (h : checkAndRepair E path = some (out, orig, true)) :
+    ∀ i (hi : i < out.length), out[i]? = path[i]? ∨ E.valid out[i] = true := checkAndRepair_true_states_valid h
+
+/-- success ⇒ `check()` passes — for every path that does not have exactly two states, and for two
+states when the first one is valid (full statement without that premise: false, next theorem) -/
+theorem repair_true_implies_check_partial {E : RepairEnv σ} {path out : List σ} {orig : Bool}
+    (h : checkAndRepair E path = some (out, orig, true))
+    (h2 : path.length = 2 → ∀ f, path.head? = some f → E.valid f = true) :
+    checkPath E.valid E.cm out = true := checkAndRepair_true_implies_check_partial h h2
+
+/-- on a TWO-state path `checkAndRepair` returns `(checkMotion, checkMotion)` and never asks
+`isValid(states_[0])`, which `check()` does ask (and `checkMotion` assumes): (true, true) with `check()`
+false.  Outside C17's quantifier (valid inputs have a valid first state); recorded as an observation. -/
+theorem repair_true_implies_check_fails :
+    ∃ (E : RepairEnv Nat) (path out : List Nat) (orig : Bool),
+      checkAndRepair E path = some (out, orig, true) ∧ checkPath E.valid E.cm out = false :=
+  checkAndRepair_two_states_first_unchecked
+
+theorem repair_original_valid_unchanged {E : RepairEnv σ} {path out : List σ} {res : Bool}
+    (h : checkAndRepair E path = some (out, true, res)) : out = path := checkAndRepair_original_unchanged h
+
+/-- after a FAILED repair the path can hold a state answered invalid that was not in the input
+(`sampleNear` writes every raw sample into `states_[i]`); callers must honour the `false` -/
+theorem repair_failed_can_leave_invalid_sample :
+    ∃ (E : RepairEnv Nat) (path out : List Nat) (orig : Bool),
+      checkAndRepair E path = some (out, orig, false) ∧ ∃ x ∈ out, x ∉ path ∧ E.valid x = false :=
+  checkAndRepair_failed_leaves_invalid_sample
+
+/-- non-vacuity: the middle state is replaced by the first valid raw sample that connects -/
+example : checkAndRepair ⟨fun x => decide (x < 100), fun a b => decide (a ≤ b ∧ b ≤ a + 30), fun _ => 25, 2⟩
+    [0, 50, 40] = some ([0, 25, 40], false, true) := by decide
+
+/-! ## PathHybridization (Model/PathHybrid.lean): graph of `recordPath` + arbitrary extra edges,
+shortest root→goal walk as the specification of `computeHybridPath` (boost's Dijkstra = oracle) -/
+
+/-- every recorded path is a root→goal walk of the final graph whose cost is the path's own cost,
+whatever was recorded or connected afterwards (edges are only ever added) -/
+theorem hybrid_recorded_path_is_walk {κ : Type} [AddMonoid κ] (ops : List (OmplModel.PathHybrid.Op κ)) :
+    ∀ p ∈ (OmplModel.PathHybrid.run ops).paths,
+      p.verts.length = p.costs.length + 1 ∧
+      OmplModel.PathHybrid.IsWalk (OmplModel.PathHybrid.run ops).g.edges OmplModel.PathHybrid.root
+        (OmplModel.PathHybrid.recWalk p) OmplModel.PathHybrid.goal ∧
+      OmplModel.PathHybrid.walkVerts OmplModel.PathHybrid.root (OmplModel.PathHybrid.recWalk p) =
+        OmplModel.PathHybrid.root :: p.verts ++ [OmplModel.PathHybrid.goal] ∧
+      OmplModel.PathHybrid.walkCost (OmplModel.PathHybrid.recWalk p) = OmplModel.PathHybrid.pathCost p.costs :=
+  OmplModel.PathHybrid.recorded_path_is_walk ops
+
+/-- **a hybridized path is never worse than any recorded input path** (additive costs, any number of
+paths, any extra edges) -/
+theorem hybrid_le_each_input {κ : Type} [AddMonoid κ] [LinearOrder κ] (ops : List (OmplModel.PathHybrid.Op κ))
+    (w : List (Nat × κ)) (hw : OmplModel.PathHybrid.IsShortest (OmplModel.PathHybrid.run ops).g.edges w) :
+    ∀ p ∈ (OmplModel.PathHybrid.run ops).paths,
+      OmplModel.PathHybrid.walkCost w ≤ OmplModel.PathHybrid.pathCost p.costs :=
+  OmplModel.PathHybrid.hybrid_le_each_input ops w hw
+
+theorem hybrid_le_best_input {κ : Type} [AddMonoid κ] [LinearOrder κ] (ops : List (OmplModel.PathHybrid.Op κ))
+    (w : List (Nat × κ)) (hw : OmplModel.PathHybrid.IsShortest (OmplModel.PathHybrid.run ops).g.edges w) (m : κ)
+    (hm : ((OmplModel.PathHybrid.run ops).paths.map fun p => OmplModel.PathHybrid.pathCost p.costs).min? = some m) :
+    OmplModel.PathHybrid.walkCost w ≤ m :=
+  OmplModel.PathHybrid.hybrid_le_best_input ops w hw m hm
 
 /-! ## the return value of simplify (fix 3ab8608d2: `return path.check()`) -/
 
